@@ -45,7 +45,7 @@ Init == /\ ns = [n \in Node |-> InitNode(n)]
         /\ rnd = [n \in Node |-> NoRound]
         /\ msgs = {}
         /\ mon = [granted |-> {}, led |-> {}, committed |-> {}, lcom |-> {}, maxTerm |-> [n \in Node |-> 1],
-                  crashes |-> 0, drops |-> 0, unvoted |-> {}, cfgs |-> 0, badCommit |-> FALSE, badRestart |-> FALSE]
+                  crashes |-> 0, drops |-> 0, unvoted |-> {}, cfgs |-> 0, badCommit |-> FALSE, badRestart |-> FALSE, lgrant |-> FALSE]
         /\ hist = <<>>
 
 Busy(n) == rnd[n].open
@@ -194,7 +194,8 @@ DeliverVQ(m, dup) ==
                                   ![m.from].resp = @ \cup {[from |-> m.to, g |-> r.g, t |-> r.t, li |-> r.li, lt |-> r.lt]}]
                  ELSE rnd
          mon0 == IF dup THEN [mon EXCEPT !.drops = @ + 1] ELSE mon
-         mon1 == IF r.g THEN [mon0 EXCEPT !.granted = @ \cup {[voter |-> m.to, t |-> m.t, cand |-> m.from]}]
+         mon1 == IF r.g THEN [mon0 EXCEPT !.granted = @ \cup {[voter |-> m.to, t |-> m.t, cand |-> m.from]},
+                                          !.lgrant = @ \/ s.role = "Ln"]
                  ELSE mon0
          lbl == [a |-> "DeliverVQ", from |-> m.from, to |-> m.to, dup |-> IF dup THEN 1 ELSE 0]
      IN AutoFinish(m.from, [ns EXCEPT ![m.to] = s1], rnd1,
@@ -227,7 +228,8 @@ DeliverAE(m, dup) ==
 DeliverAR(m) ==
   /\ m.ty = "AR" /\ Ready(m.to)
   /\ LET s  == ns[m.to]
-         s1 == Persist(WithCfg(m.to, s, AR_State(s, m, Peers(m.to))))
+         vp == IF "M_CountLearners" \in Dev THEN Targets(s, m.to) ELSE Peers(m.to)
+         s1 == Persist(WithCfg(m.to, s, AR_State(s, m, vp)))
      IN Step([a |-> "DeliverAR", from |-> m.from, to |-> m.to, kind |-> m.kind, mi |-> m.mi, t |-> m.t],
              [ns EXCEPT ![m.to] = s1], rnd, msgs \ {m}, mon)
 
@@ -360,7 +362,8 @@ C26_QuorumsIntersect ==
   \A i, j \in {x \in Node : ns[x].up /\ ns[x].view[x] = "V"} :
      ~DisjointMaj(VPeers(ns[i], i) \cup {i}, VPeers(ns[j], j) \cup {j})
 \* C27: learners never lead, never are candidates
-C27_LearnersPassive == \A n \in Node : (ns[n].up /\ ns[n].view[n] = "L") => ns[n].role \in {"Ln"}
+C27_LearnersPassive == /\ \A n \in Node : (ns[n].up /\ ns[n].view[n] = "L") => ns[n].role \in {"Ln"}
+                       /\ ~mon.lgrant
 \* C28: a live node's view is the fold of the membership entries it has committed over its initial view
 C28_ViewAfterRestart == ~mon.badRestart
 
